@@ -59,8 +59,13 @@ def draw_program(draw):
         body = []
         nloc = nargs
         for _ in range(draw(st.integers(1, 4))):
-            k = draw(st.integers(0, 7))
-            if k == 7:
+            k = draw(st.integers(0, 8))
+            if k == 8 and draw(st.integers(0, 4)) == 0:
+                # the body multiplies one of its values with a value of the CALLER (a global of the script, not passed as an
+                # argument): an equation over wires of two contexts, which the splitting step has to refuse
+                body.append(["leak", draw(st.integers(0, nloc - 1)), draw(st.integers(0, 1))])
+                nloc += 1
+            elif k == 7:
                 # the same product computed twice and pinned together by `reps` identical assertions
                 body.append(["pin", draw(st.integers(0, nloc - 1)), draw(st.integers(0, nloc - 1)), draw(st.integers(0, 2))])
                 nloc += 2
@@ -172,6 +177,9 @@ def render(prog):
             elif s[0] == "mulc":
                 L.append("    %s = %s * (%d)" % (nm, loc[s[1]], s[2]))
                 loc.append(nm)
+            elif s[0] == "leak":
+                L.append("    %s = %s" % (nm, "LEAK * %s" % loc[s[1]] if s[2] == 0 else "%s * LEAK" % loc[s[1]]))
+                loc.append(nm)
             elif s[0] == "pin":
                 nm2 = "t%d" % (len(loc) + 1)
                 L.append("    %s = %s * %s" % (nm, loc[s[1]], loc[s[2]]))
@@ -210,6 +218,7 @@ def render(prog):
     if prog["clash"]:
         fun(prog["clash"]["func"], "fn_%s_alt" % prog["clash"]["func"]["name"], prog["funcs"])
     v = []
+    L.append("LEAK = PrivVal(5)")
     for s in prog["main"]:
         nm = "v%d" % len(v)
         if s[0] in ("priv", "pub"):
@@ -244,7 +253,7 @@ def run_child(src, tmp):
         os.remove(os.path.join(tmp, f))
     open(os.path.join(tmp, "prog.py"), "w").write(src)
     envv = dict(os.environ)
-    envv.update({"QAPTOOLS_BIN": QAPBIN, "PYTHONPATH": backends.REPO + core.COVPATH, "PYTHONDONTWRITEBYTECODE": "1", "PYTHONHASHSEED": "0"})
+    envv.update({"QAPTOOLS_BIN": QAPBIN, "PYTHONPATH": backends.REPO + core.COVPATH, "PYTHONDONTWRITEBYTECODE": "1", "PYTHONHASHSEED": core.hashseed_for(src)})
     envv.pop("PYSNARK_BACKEND", None)
     r = subprocess.run([sys.executable, "prog.py"], cwd=tmp, env=envv, capture_output=True, text=True, timeout=120,
                        start_new_session=True)
@@ -264,6 +273,13 @@ def analyse(prog, tmp, r):
         return "the program itself failed: %s" % (r.stderr.strip().splitlines()[-1:] or [r.stdout.strip()[-200:]]), info
     tr = json.load(open(os.path.join(tmp, "trace.json")))
     log, calls = tr["log"], tr["calls"]
+    if leak_called(prog):
+        info["calls"] = len(calls)
+        if "Inconsistent contexts" in r.stderr:
+            info["mixed_contexts_refused"] = True
+            return None, info
+        return ("a sub-circuit multiplied one of its values with a value of its caller that was not passed as an argument; the "
+                "equation over wires of two contexts was not refused (no 'Inconsistent contexts')"), info
     try:
         wires = qapfiles.parse_values(rd("pysnark_wires"))
         ios = qapfiles.parse_values(rd("pysnark_values"))
@@ -409,6 +425,28 @@ def analyse(prog, tmp, r):
     return None, info
 
 
+def leak_called(prog):
+    """does main call (directly or through nested calls) a function body that uses the caller's global?"""
+    funcs = prog["funcs"]
+    leaky = set()
+    changed = True
+    bodies = {i: f["body"] for i, f in enumerate(funcs)}
+    while changed:
+        changed = False
+        for i, body in bodies.items():
+            if i not in leaky and any(s[0] == "leak" or (s[0] == "call" and s[1] in leaky) for s in body):
+                leaky.add(i)
+                changed = True
+    alt_leaky = False
+    if prog.get("clash"):
+        alt_leaky = any(s[0] == "leak" or (s[0] == "call" and s[1] in leaky) for s in prog["clash"]["func"]["body"])
+    for s in prog["main"]:
+        if s[0] == "call":
+            if (s[3] and alt_leaky) or (not s[3] and s[1] in leaky):
+                return True
+    return False
+
+
 def count_calls(log, fn_of):
     return len([c for c in fn_of if c != "main"])
 
@@ -436,6 +474,8 @@ def shard(seed, n_examples):
                 labels.append("inconsistency-reported")
             if info.get("skipped"):
                 stats.inconclusive[info["skipped"]] += 1
+            if info.get("mixed_contexts_refused"):
+                labels.append("mixed-contexts-refused")
             if info["after_last_pub"]:
                 labels.append("constraint-after-last-public-value")
             stats.case(prog if nt else None, nt, labels)
